@@ -347,15 +347,6 @@ Fixpoint split_mode {A} (m : Z) (l : list (Z * A)) : list A * list (Z * A) :=
   | [] => ([], [])
   end.
 
-(** `write_shapes_and_records(self, pairs)`: pair by pair, stopping at the first error. *)
-Fixpoint cw_bulk (cs : list (shape * rowk * Z)) (st : cwstate) (w : world) : res unit * cwstate * world :=
-  match cs with
-  | [] => (Ok tt, st, w)
-  | (s, k, id) :: r =>
-      let '(res, st', w') := cw_write st w s k id in
-      match res with Ok _ => cw_bulk r st' w' | _ => (res, st', w') end
-  end.
-
 Fixpoint number_calls (i : Z) (l : list (rowk * ctor)) : option (list (shape * rowk * Z)) :=
   match l with
   | [] => Some []
